@@ -104,6 +104,7 @@ class Batch:
         self.results = []
         self.crashes = []
         self.harness_errors = []
+        self.spinner_hangs = 0
         self.lock = threading.Lock()
 
     def job(self, i, start=0, count=0, budget=None):
@@ -136,6 +137,11 @@ class Batch:
                         self.results.append(r)
                 elif t == "done":
                     done = True
+                elif t == "watchdog" and "briandowns/spinner" in r.get("stacks", "") and re.search(r"sync\.\(\*(RW)?Mutex\)\.(R?Lock)[^\n]*\n[^\n]*\n[^\n]*spinner\.\(\*Spinner\)", r.get("stacks", "")):
+                    # third-party hazard (DESIGN 9): the spinner's goroutine returned holding its lock;
+                    # not a verdict about taskctl and not a fault of the harness - counted, run skipped
+                    with self.lock:
+                        self.spinner_hangs += 1
                 elif t in ("harness_error", "watchdog"):
                     with self.lock:
                         self.harness_errors.append(r)
@@ -143,6 +149,9 @@ class Batch:
                 return
             # the worker died: attribute to the seed in progress
             kind = classify_crash(err)
+            if rc == 3 and any(r.get("type") == "watchdog" and "briandowns/spinner" in r.get("stacks", "") for r in recs) and not any(
+                    h.get("type") == "watchdog" and h.get("index") == (last_begin or {}).get("index") for h in self.harness_errors):
+                kind = "spinner-hazard"
             with self.lock:
                 m = re.search(r"^(panic: .*|fatal error: .*)$", err, re.M)
                 head = err[m.start():m.start() + 3500] if m else err[:2000]
@@ -339,7 +348,7 @@ def main():
             all_results += [(part, r) for r in b.results]
             all_crashes += [(b, c) for c in b.crashes]
             harness_errors += b.harness_errors
-            part_stats.append({"engine": part["engine"], "profile": part["profile"], "runs": len(b.results)})
+            part_stats.append({"engine": part["engine"], "profile": part["profile"], "runs": len(b.results), "third_party_spinner_hangs_skipped": b.spinner_hangs})
 
         # ---- classify ----
         violations = []  # (part, result, violation)
@@ -380,6 +389,8 @@ def main():
                 crash_viol.append((b, c))
             elif c["kind"] == "taskctl-panic":
                 harness_errors.append({"type": "crash-other-property", "note": "taskctl panicked (see C03/C12/C19 checks); this property's statement is silent about crashes", "panic": c.get("panic_line"), "stderr": c["stderr"][:1800], "begin": c["begin"]})
+            elif c["kind"] == "spinner-hazard":
+                pass  # counted in spinner_hangs
             else:
                 harness_errors.append({"type": "worker-died", "kind": c["kind"], "stderr": c["stderr"][-3000:], "begin": c["begin"]})
 
